@@ -751,8 +751,9 @@ func flushFamily(seed int64, n int, out *json.Encoder, budget int, scen int, par
 	sweeps := 1 + n/50
 	for t := 0; t < sweeps; t++ {
 		trng := rand.New(rand.NewSource(seed*7 + int64(t)))
-		bf, nkeys, mods := []uint{2, 3, 4}[trng.Intn(3)], 150+trng.Intn(200), 50+trng.Intn(40)
-		for j := 1; j <= 100; j++ {
+		// (more dirty nodes than the 40 slots of the write gate, so that the failing write is also one that had to wait for a slot)
+		bf, nkeys, mods := []uint{2, 3, 4}[trng.Intn(3)], 250+trng.Intn(200), 130+trng.Intn(60)
+		for j := 1; j <= 170; j++ {
 			id++
 			if !mine() {
 				continue
